@@ -10,7 +10,7 @@ cp "$src/demo.py" "$d/demo.py"; cp "$src/README.md" "$d/README.md"
 python3 - "$d" "$id" "$2" <<'PY'
 import json,sys
 d,i,p=sys.argv[1:4]
-json.dump(dict(id=i,property=p,author="independent sub-agent (round 2) given only the property record and a scratch worktree",
+json.dump(dict(id=i,property=p,author="independent sub-agent given only the property record and a scratch worktree",
                needs=open(d+"/README.md").read()[:1500]),open(d+"/meta.json","w"),indent=1)
 PY
 shift 3
